@@ -103,3 +103,33 @@ def vars_limit_session(prefix="C18L"):
         line(20, for_(var("I"), I(0), I(260)), for_(var("J"), I(0), I(260)),
              let(arr("A", var("I"), var("J")), I(1)), next_(var("J"), var("I"))),
         direct(run())] + after, big=True)
+
+
+def pool_session(prefix="C18P"):
+    """the variable pool driven to its edge and across it, one assignment per command near the limit.
+    returns (session, expected event kinds): the events say what each command is in terms of PoolLimit
+    (bulk k: k assignments of a non-zero value to fresh variables; set x v; get x; clear)"""
+    A_ = lambda i, j: arr("A", i, j)
+    prog = [line(10, dim(A_(I(255), I(255)))),
+            line(20, for_(var("I"), I(0), I(254)), for_(var("J"), I(0), I(255)), let(A_(var("I"), var("J")), I(1)),
+                 next_(var("J"), var("I")))]
+    fill = 255 * 256 + 2                     # the elements of 255 rows, I and J
+    cmds, evs = list(prog), [None, None]
+    def add(c, e):
+        cmds.append(c); evs.append(e)
+    def setv(x, v):
+        add(direct(let(var(x), I(v))), {"ev": "set", "x": x, "v": v})
+    def getv(x):
+        add(direct(pr(var(x), ";")), {"ev": "get", "x": x})
+    add(direct(run()), {"ev": "bulk", "k": fill})
+    add(direct(for_(var("K"), I(0), I(250)), let(A_(I(255), var("K")), I(1)), next_()), {"ev": "bulk", "k": 252})
+    setv("Z1", 5); setv("Z2", 5); setv("Z3", 5); getv("Z3"); setv("Z1", 0); getv("Z1"); setv("Z4", 7); getv("Z4"); getv("Z2")
+    add(direct(clear()), {"ev": "clear"})
+    getv("Z1"); setv("Z1", 7); getv("Z1"); setv("Z1", 0); getv("Z1")
+    # a second time, crossing the limit inside one statement
+    add(direct(run()), {"ev": "bulk", "k": fill})
+    add(direct(for_(var("K"), I(0), I(255)), let(A_(I(255), var("K")), I(1)), next_()), {"ev": "bulk", "k": 257})
+    setv("Z2", 5); getv("Z2"); setv("Z3", 0); getv("Z3")
+    add(direct(clear()), {"ev": "clear"})
+    setv("Z3", 5); getv("Z3")
+    return session(prefix + "-pool", cmds, big=True, budget=3000000), evs
